@@ -533,6 +533,21 @@ func (vc *VC) evalKnown(key string, callee *types.Func, recv Value, call *ast.Ca
 	case "maps.Clone":
 		v := vc.term(vc.evalExpr(call.Args[0], st), pos)
 		return []Value{v}, true
+	case "slices.Contains":
+		// some element equals v (element sorts with structural equality only)
+		if len(call.Args) == 2 {
+			sl := vc.term(vc.evalExpr(call.Args[0], st), pos)
+			v := vc.term(vc.evalExpr(call.Args[1], st), pos)
+			si := vc.ss.info[sl.Sort]
+			if si != nil && si.Kind == "slice" {
+				es := vc.ss.sortOf(si.Elem)
+				ei := vc.ss.info[es]
+				if es == v.Sort && (es == SStr || es == SInt || es == SBool || (ei != nil && ei.Kind == "struct")) {
+					S := string(sl.Sort)
+					return []Value{Term{fmt.Sprintf("(exists ((ci! Int)) (and (<= 0 ci!) (< ci! (len.%s %s)) (= (select (arr.%s %s) ci!) %s)))", S, sl.S, S, sl.S, v.S), SBool, types.Typ[types.Bool]}}, true
+				}
+			}
+		}
 	case "maps.Copy":
 		// dst gets every entry of src (src wins on common keys); writing into a nil dst panics
 		if len(call.Args) == 2 {
